@@ -128,6 +128,7 @@ const (
 	LexerBuiltinOperator
 	LexerRuneLit
 	LexerRuneEscaped
+	LexerHexEscape // inside \xHH, \uHHHH or \UHHHHHHHH of a string or rune literal
 )
 
 type Lexer struct {
@@ -146,6 +147,12 @@ type Lexer struct {
 
 	priori    int
 	priorRune [20]rune
+
+	// pending \x, \u, \U escape: digits still expected, value so far,
+	// and the literal state to return to.
+	hexNeed   int
+	hexVal    rune
+	hexReturn LexerState
 }
 
 func (lexer *Lexer) AppendToken(tok Token) {
@@ -291,6 +298,13 @@ func EscapeChar(char rune) (rune, error) {
 		return '\'', nil
 	case '#':
 		return '#', nil
+	// the printer (strconv.Quote/QuoteRune) also produces these:
+	case 'b':
+		return '\b', nil
+	case 'f':
+		return '\f', nil
+	case 'v':
+		return '\v', nil
 	}
 	return ' ', errors.New("invalid escape sequence")
 }
@@ -441,6 +455,25 @@ func (x *Lexer) DecodeBrace(brace rune) Token {
 	return EndTk
 }
 
+// startHexEscape recognises the \x, \u and \U escapes that the printer
+// emits for control and other non-printable runes.
+func (lexer *Lexer) startHexEscape(r rune, back LexerState) bool {
+	switch r {
+	case 'x':
+		lexer.hexNeed = 2
+	case 'u':
+		lexer.hexNeed = 4
+	case 'U':
+		lexer.hexNeed = 8
+	default:
+		return false
+	}
+	lexer.hexVal = 0
+	lexer.hexReturn = back
+	lexer.state = LexerHexEscape
+	return true
+}
+
 func (lexer *Lexer) LexNextRune(r rune) error {
 
 	// a little look-back ring. To help with scientific
@@ -552,7 +585,33 @@ top:
 		lexer.buffer.WriteRune(r)
 		return nil
 
+	case LexerHexEscape:
+		var d rune
+		switch {
+		case r >= '0' && r <= '9':
+			d = r - '0'
+		case r >= 'a' && r <= 'f':
+			d = r - 'a' + 10
+		case r >= 'A' && r <= 'F':
+			d = r - 'A' + 10
+		default:
+			return errors.New("invalid hex digit in escape sequence")
+		}
+		lexer.hexVal = lexer.hexVal<<4 | d
+		lexer.hexNeed--
+		if lexer.hexNeed == 0 {
+			if !utf8.ValidRune(lexer.hexVal) {
+				return errors.New("escape sequence is not a valid rune")
+			}
+			lexer.buffer.WriteRune(lexer.hexVal)
+			lexer.state = lexer.hexReturn
+		}
+		return nil
+
 	case LexerStrEscaped:
+		if lexer.startHexEscape(r, LexerStrLit) {
+			return nil
+		}
 		char, err := EscapeChar(r)
 		if err != nil {
 			return err
@@ -577,6 +636,9 @@ top:
 		return nil
 
 	case LexerRuneEscaped:
+		if lexer.startHexEscape(r, LexerRuneLit) {
+			return nil
+		}
 		char, err := EscapeChar(r)
 		if err != nil {
 			return err
@@ -840,7 +902,7 @@ writeRuneToBuffer:
 // that made new tokens available.
 func (lexer *Lexer) finishTopLevel() (produced bool, unfinished bool, err error) {
 	switch lexer.state {
-	case LexerStrLit, LexerStrEscaped, LexerRuneLit, LexerRuneEscaped,
+	case LexerStrLit, LexerStrEscaped, LexerRuneLit, LexerRuneEscaped, LexerHexEscape,
 		LexerBacktickString, LexerCommentBlock, LexerCommentBlockAsterisk:
 		return false, true, nil
 	case LexerNormal:
